@@ -18,6 +18,9 @@ pub enum ResolutionType {
     MonthDay,
 }
 
+/// The reference year of an ISO month-day (the first leap year after the epoch).
+const ISO_REFERENCE_YEAR: i32 = 1972;
+
 /// `ResolvedCalendarFields` represents the resolved field values necessary for
 /// creating a Date from potentially partial values.
 #[derive(Debug)]
@@ -34,7 +37,22 @@ impl ResolvedCalendarFields {
         overflow: ArithmeticOverflow,
         resolve_type: ResolutionType,
     ) -> TemporalResult<Self> {
-        let era_year = EraYear::try_from_partial_date(partial_date)?;
+        let names_no_year = partial_date.year.is_none()
+            && partial_date.era.is_none()
+            && partial_date.era_year.is_none();
+        let era_year = if resolve_type == ResolutionType::MonthDay
+            && partial_date.calendar.is_iso()
+            && names_no_year
+        {
+            // A month-day record need not name a year: the day is regulated in the ISO
+            // reference year.
+            EraYear::try_from_partial_date(&PartialDate {
+                year: Some(ISO_REFERENCE_YEAR),
+                ..partial_date.clone()
+            })?
+        } else {
+            EraYear::try_from_partial_date(partial_date)?
+        };
         if partial_date.calendar.is_iso() {
             if era_year.arithmetic_year.is_some_and(|year| year != era_year.year) {
                 return Err(TemporalError::range()
